@@ -7,6 +7,7 @@ use tower_resilience_bulkhead::{Bulkhead, BulkheadError, BulkheadLayer, Bulkhead
 pub struct Adapter {
     svc: Bulkhead<Inner>,
     idle: Vec<Bulkhead<Inner>>,
+    gone: bool,
 }
 
 impl Adapter {
@@ -18,7 +19,7 @@ impl Adapter {
             b = b.max_wait_duration(Duration::from_millis(ms));
         }
         let layer = b.build();
-        Adapter { svc: layer.layer(Inner::new()), idle: Vec::new() }
+        Adapter { svc: layer.layer(Inner::new()), idle: Vec::new(), gone: false }
     }
 }
 
@@ -38,6 +39,10 @@ impl Mw for Adapter {
     /// `mem::replace` idiom: ready the template, leave a fresh clone in its place, call the readied one;
     /// `template` ready and call the template itself.
     fn arrive(&mut self, c: usize, kv: &Kv) -> Option<CallFut> {
+        if self.gone {
+            log_raw("noop".into());
+            return None;
+        }
         let req = Req::new(c, kv);
         let via = kv.str("via", "clone");
         let ready = |svc: &mut Bulkhead<Inner>| matches!(poll_ready_once(svc), std::task::Poll::Ready(Ok(())));
@@ -83,8 +88,33 @@ impl Mw for Adapter {
     }
     /// `manual readyidle`: a handle is polled ready and then kept, never called (a balancer's ready-cache, a request
     /// abandoned between `ready()` and `call()`); it must not cost capacity.
+    fn requester(&self) -> Option<Requester> {
+        if self.gone {
+            return None;
+        }
+        let template = self.svc.clone();
+        Some(std::rc::Rc::new(move |c: usize, kv: &Kv| {
+            let mut svc = template.clone();
+            if !matches!(poll_ready_once(&mut svc), std::task::Poll::Ready(Ok(()))) {
+                log(format!("result {} notready", c));
+                return None;
+            }
+            Some(held(svc.call(Req::new(c, kv)), render))
+        }))
+    }
+    /// `manual dropsvc`: every handle (template, idle handles) is dropped while calls may be in flight or not
+    /// even polled yet; the handle is re-created from the layer for later arrivals — which therefore go through
+    /// "the same bulkhead" only if the layer shares its state… it does not (each `layer()` call makes a new
+    /// semaphore), so later `arrive`s are refused on both sides (`noop`).
     fn manual(&mut self, what: &str, _kv: &Kv) {
-        if what == "readyidle" {
+        if what == "dropsvc" {
+            self.gone = true;
+            self.idle.clear();
+            let dummy = BulkheadLayer::builder().max_concurrent_calls(1).build().layer(Inner::new());
+            drop(std::mem::replace(&mut self.svc, dummy));
+            log_raw("#dropsvc".into());
+        }
+        if what == "readyidle" && !self.gone {
             let mut h = self.svc.clone();
             let _ = poll_ready_once(&mut h);
             self.idle.push(h);
